@@ -470,6 +470,13 @@ func (r *SqlManager) transactionHelper(ctx context.Context, operation func(tx *g
 				if err := tx.Where("id = ?", change.DIDDocumentVersionID).Delete(&orm.DidDocument{}).Error; err != nil {
 					return err
 				}
+				// a DID that was created by this operation has no other document versions: remove the DID as well,
+				// otherwise the subject keeps existing (without documents) and creation can't be retried.
+				if change.Type == orm.DIDChangeCreated {
+					if err := tx.Where("id = ?", change.DIDDocumentVersion.DID.ID).Delete(&orm.DID{}).Error; err != nil {
+						return err
+					}
+				}
 			}
 		} else {
 			// delete all changes
@@ -586,6 +593,13 @@ func (r *SqlManager) Rollback(ctx context.Context) {
 					err := tx.Where("id = ?", change.DIDDocumentVersionID).Delete(&orm.DidDocument{}).Error
 					if err != nil {
 						return err
+					}
+					// a DID whose creation was never committed has no other document versions: remove the DID as well
+					if change.Type == orm.DIDChangeCreated {
+						err = tx.Where("id = ?", change.DIDDocumentVersion.DID.ID).Delete(&orm.DID{}).Error
+						if err != nil {
+							return err
+						}
 					}
 				}
 			}
